@@ -71,15 +71,16 @@ type c11 struct {
 	tgts []target
 	ext  *extOracles
 
-	load      sync.RWMutex // see runCompiler
-	mu        sync.Mutex
-	sigSeen   map[string]int
-	crashSeen map[string]int
-	comps     []*comp
-	harnesses []*emit.Harness
-	goSubs    map[string]*comp
-	outIndex  map[string]*comp // "<id>" path segment -> comp
-	jsonEmpty int
+	load          sync.RWMutex // see runCompiler
+	hangConfirmed map[string]bool
+	mu            sync.Mutex
+	sigSeen       map[string]int
+	crashSeen     map[string]int
+	comps         []*comp
+	harnesses     []*emit.Harness
+	goSubs        map[string]*comp
+	outIndex      map[string]*comp // "<id>" path segment -> comp
+	jsonEmpty     int
 }
 
 // diagnoses attribute a failure of a program to a feature class by what the
@@ -261,17 +262,29 @@ func (c *c11) writeUnit(u *unit) error {
 // repeated once with the machine to itself (every other compiler run of this
 // process waits): a run that is merely slow under 16-way load, e.g. a process
 // growing a 1 GB stack before the Go runtime aborts it, then shows what it is.
-func (c *c11) runCompiler(dir string, watchdog time.Duration, args ...string) *emit.Result {
+func (c *c11) runCompiler(class, dir string, watchdog time.Duration, args ...string) *emit.Result {
 	c.load.RLock()
 	r := runLimited(c.bin, dir, watchdog, args...)
 	c.load.RUnlock()
 	if r.TimedOut {
 		// the second attempt decides: alone, and with six times the patience
 		// (other checks may be loading the machine); an endless loop is still
-		// there after 2 minutes, a slow crash is not
-		c.run.Add("watchdog_retries", 1)
+		// there after 2 minutes, a slow crash is not.  Once a hang has been
+		// confirmed for an input class, further expiries in that class are
+		// booked under the same verdict without paying the 2 minutes again.
 		c.load.Lock()
-		r = runLimited(c.bin, dir, 6*watchdog, args...)
+		c.mu.Lock()
+		confirmed := class != "" && c.hangConfirmed[class]
+		c.mu.Unlock()
+		if !confirmed {
+			c.run.Add("watchdog_retries", 1)
+			r = runLimited(c.bin, dir, 6*watchdog, args...)
+			if r.TimedOut && class != "" {
+				c.mu.Lock()
+				c.hangConfirmed[class] = true
+				c.mu.Unlock()
+			}
+		}
 		c.load.Unlock()
 	}
 	return r
@@ -338,7 +351,7 @@ func (c *c11) compileUnit(u *unit, sel []*comp) {
 			args := []string{"-gen", cp.T.gen(cp.S), "-r"}
 			args = append(args, cp.S.Extra...)
 			args = append(args, "-out", cp.OutDir, u.Root)
-			r = c.runCompiler(u.Dir, 60*time.Second, args...)
+			r = c.runCompiler("", u.Dir, 60*time.Second, args...)
 		}
 		cp.Res = r
 		run.Eval(1)
